@@ -185,6 +185,11 @@ func (s *script) mtuShrink() bool {
 	if s.r.Intn(4) == 0 {
 		m = cur + s.r.Intn(100) // not smaller: must change nothing
 	}
+	if s.r.Intn(12) == 0 {
+		// absurd values a forged or broken message may carry (below the IPv4 minimum of 68, below
+		// the header sizes): the sender must survive and keep every later packet as small as it can
+		m = []int{0, 1, 19, 20, 21, 40, 41, 52, 53, 67}[s.r.Intn(10)]
+	}
 	if !s.c.InjectFragNeeded(uint16(m), st.SndUna) {
 		return s.read()
 	}
